@@ -256,6 +256,9 @@ def campaign_model(ck: Check, n: int, parts: tuple = ("valid", "tr", "acc"), for
                 if st == "v1" and semgen.has_discriminator(doc) and semgen.disc_const_tag(doc):
                     cc.hit("known:v1_const_tag_member")  # D40: Field(..., const=True) written after stage 1
                     continue
+                if st == "v2" and shadowed_class_names(b.code):
+                    cc.hit("known:member_name_shadows_class_name")  # D44: resolved wrongly when the class is built, after stage 1
+                    continue
                 if st == "v1" and semgen.allof_required_const(doc):
                     cc.hit("known:v1_const_member_required_by_allOf")  # D41: the same `Field(..., const=True)`
                     continue
@@ -293,6 +296,21 @@ def campaign_model(ck: Check, n: int, parts: tuple = ("valid", "tr", "acc"), for
 
 
 # ============================================================ (d) the property oracle
+def shadowed_class_names(code: str) -> set:
+    """class names of the generated module that are also member names of one of its classes: inside that class
+    body an annotation mentioning the class is evaluated to the MEMBER (pydantic v2 resolves `Optional[OrderId]` in
+    the class namespace, where `OrderId` is the member's default) — the shadowing defect recorded by C16/C17"""
+    import ast
+
+    try:
+        tree = ast.parse(code)
+    except SyntaxError:
+        return set()
+    classes = {n.name for n in tree.body if isinstance(n, ast.ClassDef)}
+    members = {st.target.id for n in tree.body if isinstance(n, ast.ClassDef) for st in n.body if isinstance(st, ast.AnnAssign) and isinstance(st.target, ast.Name)}
+    return classes & members
+
+
 def big_exclusive_bound(doc: dict) -> bool:
     """an exclusive bound that is an integer beyond 2**53 (JsonSchemaObject types exclusive bounds as float)"""
 
@@ -380,6 +398,8 @@ def oracle_doc(ck: Check, camp, doc: dict, target: tuple, insts: list | None = N
             camp.distinct.add(hash((semgen.canon(doc), semgen.canon(inst), label)))
             ok, obj = b.validate(inst)
             cause = causes_for(doc, inst, style)
+            if cause == "none" and style == "v2" and kind == semrun.STYLE_MODEL["v2"] and shadowed_class_names(b.code):
+                cause = "member_name_shadows_class_name"
             if not ok:
                 ck.fail({**base, "oracle": "valid_rejected", "mechanism": "validation_error", "cause": cause}, {**inp, "instance": inst}, f"valid instance rejected: {str(obj)[:300]}")
                 continue
@@ -421,9 +441,9 @@ TARGETS = [("v1", "contype"), ("v1", "field"), ("v2", "contype"), ("v2", "field"
 OPTION_SETS = {
     "reuse_model": {"reuse_model": True},
     "collapse_root_models": {"collapse_root_models": True},
-    "reuse+collapse": {"reuse_model": True, "collapse_root_models": True},
 }
-OPTION_TARGETS = [("v2", "contype", "jsonschema", "reuse_model"), ("v1", "contype", "jsonschema", "reuse_model"), ("v2", "field", "jsonschema", "collapse_root_models"), ("v2", "contype", "jsonschema", "reuse+collapse")]
+# (combinations of options are C14's topic: reuse_model + collapse_root_models leaves a dangling base class, C14's D43)
+OPTION_TARGETS = [("v2", "contype", "jsonschema", "reuse_model"), ("v1", "contype", "jsonschema", "reuse_model"), ("v2", "field", "jsonschema", "collapse_root_models"), ("v1", "field", "jsonschema", "collapse_root_models")]
 
 
 def focused_docs() -> list[tuple[str, dict]]:
